@@ -34,6 +34,38 @@ fn fnv(s: &str) -> String {
     format!("{:016x}", h)
 }
 
+/// The `note = "..."` strings of the `#[deprecated(..)]` items in the generated code (how the macro shows warnings on stable).
+fn deprecated_notes(tokens: &str) -> Vec<String> {
+    let mut out = vec![];
+    let mut rest = tokens;
+    while let Some(i) = rest.find("deprecated (note = ") {
+        rest = &rest[i + "deprecated (note = ".len()..];
+        // a Rust string literal: parse it with syn so that escapes are undone exactly as the compiler would
+        let mut end = None;
+        let bytes = rest.as_bytes();
+        let mut j = 1;
+        while j < bytes.len() {
+            match bytes[j] {
+                b'\\' => j += 2,
+                b'"' => { end = Some(j); break; }
+                _ => j += 1,
+            }
+        }
+        let Some(end) = end else { break };
+        let after = rest[end + 1..].trim_start();
+        // only the warning items: `#[deprecated(note = "..")] fn w<N>() {..}` (the generated module has other deprecated items)
+        let is_warning = after.strip_prefix(")").map(str::trim_start).and_then(|a| a.strip_prefix("]")).map(str::trim_start)
+            .and_then(|a| a.strip_prefix("fn w")).is_some_and(|a| a.chars().next().is_some_and(|c| c.is_ascii_digit()));
+        if is_warning {
+            if let Ok(lit) = syn::parse_str::<syn::LitStr>(&rest[..=end]) {
+                out.push(lit.value());
+            }
+        }
+        rest = &rest[end + 1..];
+    }
+    out
+}
+
 fn main() {
     let args: Vec<String> = std::env::args().collect();
     let mut cases = String::new();
@@ -68,7 +100,7 @@ fn main() {
         std::env::set_var("CARGO_MANIFEST_DIR", dir);
         let r = run_caught(|| load_locales::load_locales().map(|ts| ts.to_string()).map_err(|e| e.to_string()));
         let ev = match r {
-            Ok(Ok(text)) => json!({"ev": "Codegen", "case": id, "outcome": "Ok", "hash": fnv(&text), "len": text.len()}),
+            Ok(Ok(text)) => json!({"ev": "Codegen", "case": id, "outcome": "Ok", "hash": fnv(&text), "len": text.len(), "notes": deprecated_notes(&text)}),
             Ok(Err(e)) => json!({"ev": "Codegen", "case": id, "outcome": "Err", "errText": e}),
             Err(msg) => json!({"ev": "Codegen", "case": id, "outcome": "Panic", "panic": msg}),
         };
